@@ -350,6 +350,12 @@ func (g *histGen) genBind(portal, stmt string) pgwire.FMsg {
 	} else {
 		np = r.Intn(3)
 	}
+	if np > 1000 && r.Chance(9, 10) {
+		// (a statement with tens of thousands of placeholders: most clients that
+		// bind it here forget the parameters - a Bind that really carries 65535
+		// values is megabytes of case and thousands of reads, kept rare)
+		np = r.Intn(3)
+	}
 	// parameter format codes: none, one for all, or one per parameter
 	mode := r.Intn(3)
 	if np == 0 && mode == 2 {
